@@ -119,6 +119,7 @@ def showOut : Out × Save → String
     let os := match o with
       | .http500 => "500"
       | .tlv st e k p en => s!"tlv {st} {match e with | some x => toString x | none => "-"} {b k} {b p} {b en}"
+      | .panic => "panic"
     let ss := match s with
       | some (n, k) => s!" save {n} {k}"
       | none => " nosave"
@@ -207,6 +208,7 @@ def showOut (o : Out) (st : St) : String :=
   let os := match o with
     | .http500 => "500"
     | .tlv s e k en => s!"tlv {s} {match e with | some x => toString x | none => "-"} {S.b k} {S.b en}"
+    | .panic => "panic"
   os ++ " " ++ showInst st.installed
 
 end V
